@@ -4,6 +4,7 @@ import ast
 import asyncio
 import builtins
 from collections import OrderedDict
+import copy
 import functools
 import importlib
 import inspect
@@ -1429,9 +1430,13 @@ class AstEval:
 
     async def ast_augassign(self, arg):
         """Execute augmented assignment statement (lhs <BinOp>= value)."""
-        arg.target.ctx = ast.Load()
-        new_val = await self.aeval(ast.BinOp(left=arg.target, op=arg.op, right=arg.value))
-        arg.target.ctx = ast.Store()
+        #
+        # evaluate a Load copy of the target; the AST is shared by every task running
+        # this code, so it must not be modified while other tasks may be interpreting it
+        #
+        target = copy.copy(arg.target)
+        target.ctx = ast.Load()
+        new_val = await self.aeval(ast.BinOp(left=target, op=arg.op, right=arg.value))
         await self.recurse_assign(arg.target, new_val)
 
     async def ast_annassign(self, arg):
